@@ -31,6 +31,7 @@ THEOREMS = [
     "Ural.Props.C12.splitLaw_of_class",
     "Ural.Props.C12.splitLaw_bracketed",
     "Ural.Props.C12.relru_fixed_class",
+    "Ural.Props.C12.relru_fixed_caseinv",
     "Ural.Props.C12.accessors_roundtrip",
     "Ural.Props.C12.stems_wellformed_of_split",
 ]
@@ -44,7 +45,8 @@ TABLE_OBLIGATIONS = [
 ]
 RULE = (
     "A case is a URL string with the suffix_aware modes to run it in (both, for the corpus and the grammar). The stream is: the regression corpus (IPv6 with port, "
-    "password without user, ':' and '@' in the path, multi-label suffixes, '|' URLs ...), then the quantifier's grammar (quick: a seeded sample of 12,000 URLs; thorough: "
+    "password without user, ':' and '@' in the path, multi-label suffixes, '|' URLs ...), then all 480 bracketed literals of the family "
+    "{zone id, IPvFuture text} ending with a public suffix x port x userinfo x tail (the class of the fix FX-C12-BRACKETSUFFIX), then the quantifier's grammar (quick: a seeded sample of 12,000 URLs; thorough: "
     "all of it) 6 scheme forms x 8 userinfo shapes x 14 host shapes "
     "(names, upper case, multi-label public suffixes, wildcard/exception suffix families, IPv4, "
     "localhost, bracketed IPv6 incl. hex groups, embedded IPv4 and zone id, punycode, non-ASCII, "
@@ -84,7 +86,8 @@ TRUSTED = [
 ]
 ASSUMPTIONS = [
     "C08 clause used as hypothesis (SplitRejoins / SplitRejoinsUrl): when split_suffix(url) is not None its two parts re-join to the lower-cased urlsplit(url).hostname; checked on every in-grammar case of this run (it fails exactly for hosts with a trailing dot, which are outside the suffix-aware reading). Nothing is assumed about split_suffix on a bracketed IP literal: stems.py does not consult it there (fix of the former KF-C12-1), and the theorems do not either (hostSplit, splitLaw_bracketed)",
-    "reading: the suffix-aware clause is demanded for hosts without empty label (DESIGN D35) and without '%'; userinfo/host without raw '@', port without ':' (the grammar); empty and absent user/password identified",
+    "C08 case clause used as hypothesis (SplitCaseInv / SplitCaseInvUrl = Props.C08.split_case_insensitive at the hostname of u), only for suffix_aware=True and a plain host holding '%' (CPython's .hostname keeps the letter case of what follows a '%', the suffix-aware mode lower-cases the whole host): split_suffix answers the same for the lower-cased hostname; checked by the oracle on every such case of this run",
+    "reading: the suffix-aware clause is demanded for hosts without empty label (DESIGN D35); hosts are compared lower-cased in suffix-aware mode (so a plain host with '%' is inside the reading: the accessor form B.hostname == A.hostname is NOT demanded there, it fails by design of CPython's .hostname); userinfo/host without raw '@', port without ':' (the grammar); empty and absent user/password identified",
 ]
 UNPROVED = (
     "The parser hypothesis is discharged: roundtrip_string_partial / accessors_string_partial / serialization_string are "
@@ -92,16 +95,16 @@ UNPROVED = (
     "UrlRoundTrip.urlsplit_urlunsplit20 applied to the components lru_to_url prints). What remains: "
     "(1) the Lean parser is compared with CPython on every case, not proved equal to it; "
     "(2) the round trip is proved on the class inClass = {u : the parser accepts ensure_protocol(u); no '|'; netloc in the "
-    "grammar wfNetloc; a host; no raw '[' ']' in the userinfo; suffix-aware: no '%' in a plain host}. The class no longer "
-    "consults split_suffix: EVERY bracketed literal is inside it in both modes (pure IPv6, zone id, IPvFuture, whatever "
-    "public suffix its text ends with — the former KF-C12-1 witnesses now round-trip, Lean examples). Outside it: no host / "
+    "grammar wfNetloc; a host; no raw '[' ']' in the userinfo} — one class for both modes, split_suffix is not consulted: "
+    "EVERY bracketed literal is inside it (pure IPv6, zone id, IPvFuture, whatever public suffix its text ends with — the "
+    "former KF-C12-1 witnesses now round-trip, Lean examples), and so are plain hosts with '%' (suffix-aware: given C08's "
+    "case clause SplitCaseInvUrl, which is Props.C08.split_case_insensitive at the hostname of u). Outside the class: no host / "
     "netloc outside the grammar really fail (fullRoundtripString_false, examples); a malformed authority raises ValueError; "
-    "'%' in a plain suffix-aware host: the accessor form really fails (example: http://a%B.com/ comes back as "
-    "http://a%b.com/, CPython's .hostname does not lower-case after '%'), the component form (expectedParts) has no known "
-    "failing input but its fixed-point part would need split_suffix(h) = split_suffix(lower h) (C08.split_case_insensitive, "
-    "not part of the clause assumed here); a raw bracket in the userinfo: no failing input known, the proof would need the "
-    "bracket check of urlsplit to survive the removal of an empty password — these two regions are covered by "
-    "correspondence + oracle only; "
+    "a raw bracket in the userinfo: no failing input known, the proof would need the bracket check of urlsplit to survive "
+    "the removal of an empty password (IPvFuture / zone texts holding ':@') — covered by correspondence + oracle only. "
+    "accessors_string_partial (the statement in CPython's vocabulary, B.hostname == A.hostname) has the extra hypothesis "
+    "'suffix-aware: no % in a plain host', and really fails without it (example: http://a%B.com/ comes back as "
+    "http://a%b.com/; .hostname does not lower-case after '%'); "
     "(3) embedded-IPv4 literals are covered at component level (splitRejoins_of_c08, relru_fixed, roundtrip_parts) "
     "but not at string level: the parser model rejects them (stated restriction of Py/UrlSplit.lean)"
 )
@@ -139,6 +142,8 @@ CORPUS = [
     "http://u[@a.com/", "http://[u]@a.com/", "http://[::1]@a.com/", "http://:[::1]@a.com/p", "http:///x", "http://@/x",
     "http://a.com/a\tb", "ht\ttp://a.com", "  http://a.com/x", "\x00http://a.com", "http://a\n.com/", "HTTP://A.com:80",
     "aaaaaaaaaaaaaaaaaaaaaaaaaaaaaaaaaaaaaaaaaaaaaaaaaaaaaaaaaaaaaaaaa://a.com/x", "a1://b.c/d", "a+b://c.d/e",
+    # '%' in a plain host, suffix-aware: .hostname keeps the case after '%', the mode lower-cases the whole host (C08 case clause)
+    "http://a%B.com/", "http://A%41.Co.UK:80/x", "http://u:p@x%Y.www.ck/a?b#c", "http://%.com/", "http://a%B/",
     # D9: password without user
     "http://:p@a.com/", "http://u:@a.com", "http://@a.com", "http://:@a.com/x",
     # ':' and '@' in path / query / fragment
@@ -200,8 +205,23 @@ def rand_stem(rng):
     return tag + ":" + val
 
 
+# FX-C12-BRACKETSUFFIX: bracketed literals (zone id, IPvFuture) whose text ends with a public suffix — enumerated
+BRACKET_LITERALS = ["[::1%%%s]", "[FE80::A%%eth0.%s]", "[v1.%s]", "[vF.x.%s]"]
+BRACKET_SUFFIXES = ["com", "co.uk", "a.co.uk", "CoM", "www.ck", "x.www.ck", "city.kawasaki.jp", "b.kawasaki.jp", "github.io", "fr."]
+BRACKET_FAMILY = [
+    "http://" + auth + lit % sfx + port + tail
+    for lit in BRACKET_LITERALS
+    for sfx in BRACKET_SUFFIXES
+    for port in ["", ":80", ":"]
+    for auth in ["", "u:p@"]
+    for tail in ["", "/x//y?q#f"]
+]
+
+
 def cases(rng, tier):
     for u in CORPUS:
+        yield {"k": "url", "url": u, "sa": [False, True]}
+    for u in BRACKET_FAMILY:
         yield {"k": "url", "url": u, "sa": [False, True]}
     # fixed strings for the splitters / special hosts / urlunsplit
     for s in FIXED_STRS:
@@ -421,7 +441,8 @@ def full_url(url):
 def class_reason(A, sa, split):
     """None when A = urlsplit(ensure_protocol(u)) puts u inside the class of the string-level
     theorems (Model/LruUrl.lean: inClass), else the first clause that fails.  Written on the real
-    parser's answer, independently of the Lean text."""
+    parser's answer, independently of the Lean text.  The class is the same for both modes and
+    does not look at split_suffix (`sa`, `split` are unused)."""
     if A is None:
         return "urlsplit-ValueError"
     t = [A[0], A[1], A[2], A[3], A[4]]
@@ -437,8 +458,6 @@ def class_reason(A, sa, split):
     auth = n[:i] if i >= 0 else ""
     if "[" in auth or "]" in auth:
         return "bracket-in-userinfo"
-    if sa and "%" in host and not host.startswith("["):
-        return "percent-in-host"
     return None
 
 
@@ -659,9 +678,27 @@ def in_reading(A, sa):
         # a URL without host is outside the grammar (and CPython's urlunsplit drops an empty
         # netloc in front of a path starting with '//')
         return False
-    if sa and (has_empty_label(host) or ("%" in host and not host.startswith("["))) and host != "":
+    if sa and has_empty_label(host) and host != "":
         return False
     return True
+
+
+def percent_plain(A):
+    """a plain (not bracketed) host holding '%': the region where the suffix-aware theorems use C08's case clause"""
+    sp = spec_hostport(hostport_of(A[1])) if wf_netloc(A[1]) else None
+    return sp is not None and "%" in sp[0] and not sp[0].startswith("[")
+
+
+def case_clause_ok(A, split):
+    """C08's case clause at u (SplitCaseInv): split_suffix answers the same for the lower-cased hostname"""
+    lib.ural()
+    from ural.tld import split_suffix
+
+    try:
+        sp2 = split_suffix(py_urlsplit("//" + ascii_lower(A.hostname or "")))
+    except Exception:  # noqa
+        return True
+    return (None if sp2 is None else [sp2[0], sp2[1]]) == split
 
 
 def oracle(case):
@@ -699,12 +736,15 @@ def oracle_url(url, sa):
         return "serialize_lru(unserialize_lru(lru)) = %r, lru = %r" % (serialize_lru(unserialize_lru(lru)), lru)
     if not in_reading(A, sa):
         return None
-    # assumption on split_suffix (C08): re-joins to the lower-cased hostname
-    if sa and split is not None:
+    # assumption on split_suffix (C08): re-joins to the lower-cased hostname — not for a bracketed literal, on which
+    # split_suffix is not consulted (nothing is assumed about its answer there)
+    if sa and split is not None and not spec_hostport(hostport_of(A[1]))[0].startswith("["):
         d, s = split
         rj = s if d == "" else d + "." + s
         if rj != (A.hostname or "").lower():
             return "assumption (C08): split_suffix parts %r do not re-join to the lower-cased hostname %r" % (split, A.hostname)
+    if sa and percent_plain(A) and not case_clause_ok(A, split):
+        return "assumption (C08 case clause): split_suffix differs on the lower-cased hostname of %r" % (A.hostname,)
     want = raw_components(A)
     if sa:
         want = want[:3] + (want[3].lower(),) + want[4:]
@@ -760,8 +800,10 @@ def classify(case):
         r = class_reason(pr[0] if pr else None, sa, pr[1] if pr else None)
         if r is None and om is None:
             # the hypothesis of the suffix-aware theorems (C08's clause at u) holds?
-            if sa and pr[1] is not None and (pr[1][1] if pr[1][0] == "" else pr[1][0] + "." + pr[1][1]) != (pr[0].hostname or "").lower():
+            if sa and pr[1] is not None and not spec_hostport(hostport_of(pr[0][1]))[0].startswith("[") and (pr[1][1] if pr[1][0] == "" else pr[1][0] + "." + pr[1][1]) != (pr[0].hostname or "").lower():
                 labs.append("string-class:inside-but-C08-clause-fails(trailing-dot)/sa=1")
+            elif sa and percent_plain(pr[0]):
+                labs.append("string-class:inside(plain-host-with-percent:C08-case-clause)/sa=1")
             else:
                 labs.append("string-class:inside/sa=%d" % sa)
         elif r is None:
